@@ -208,6 +208,34 @@ def run_check_c17(tier, seed, workers=None, cases=None):
                  "minimise_execs": nexec, "total_count": len(unknown_cases)}
             new_viol.append(v)
             break   # one replay per run is enough for this class
+        # ---- warm sweep worker vs fresh interpreter: a sample of cases is re-run alone in new
+        # interpreters (same hash seed as configuration 0); whatever the sweep worker executed before a
+        # case must not matter
+        import random as _r
+        rr = _r.Random(derive(seed, "fresh-sample"))
+        cand = [i for i in sorted(digests[H[0]]) if i >= per]          # cases that had predecessors
+        sample = rr.sample(cand, min(cfg.get("fresh_sample", 96), len(cand)))
+        n_fresh = 0
+        for k in range(0, len(sample), 16):
+            batch = sample[k:k + 16]
+            outs = R.run_sequences(pid, seed, cfg, [[i] for i in batch], wall, H[0])
+            for i, o in zip(batch, outs):
+                if o is None:
+                    continue
+                n_fresh += 1
+                if o.get(i) != digests[H[0]][i]:
+                    case = gen_case((seed, pid, i), cfg)
+                    if seed_features(case):
+                        kf_seen["KF-C17-2"] = kf_seen.get("KF-C17-2", 0) + 1
+                        continue
+                    v = R.process_history_violation(pid, seed, cfg, i, per, wall, pred_b=[], hashseed=H[0])
+                    if v is not None:
+                        v["signature"] = {"property": pid, "outcome": "differs:warm_worker_vs_fresh_interpreter"}
+                        new_viol.append(v)
+                        break
+            if any(v.get("kind") == "process_history" for v in new_viol):
+                break
+        probes["fresh_interpreter_rechecks"] = n_fresh
     finally:
         server_calls = sum(s.calls for s in servers)
         for s in servers:
@@ -229,7 +257,7 @@ def run_check_c17(tier, seed, workers=None, cases=None):
         d = os.path.join(R.out_dir(), "replays", pid)
         os.makedirs(d, exist_ok=True)
         path = os.path.join(d, "%s.json" % v["sig_id"])
-        kind = "cross_interpreter" if "pythonhashseeds" in v else "in_process"
+        kind = "cross_interpreter" if "pythonhashseeds" in v else ("process_history" if v.get("kind") == "process_history" else "in_process")
         with open(path, "w") as f:
             json.dump({"property": pid, "kind": kind, "verif_seed": seed, "pythonhashseed": v.get("pythonhashseed", 0),
                        "pythonhashseeds": v.get("pythonhashseeds"), "d42_digest": R.src_digest(), "violation": v},
@@ -257,6 +285,7 @@ def run_check_c17(tier, seed, workers=None, cases=None):
                 "config:distinct_hash_seeds": len(H),
                 "history:noise_ops_interleaved": sum(v for k, v in probes.items() if k.startswith("noise:")),
                 "config:warm_process_rechecks": probes.get("warm_process_rechecks", 0),
+                "config:fresh_interpreter_rechecks": probes.get("fresh_interpreter_rechecks", 0),
                 "history:rebuilt_schema_runs": tot["cases"],
             },
             "probes": probes,
